@@ -349,6 +349,10 @@ def execute(case, keep_log=False):
             return world.make_connection(W['ledger'], [sentinel], copy=1, sim_tables=False)
 
         refmemo = {}
+        # parse every statement text of this world for the reference side before the first shell
+        # line runs (pristine masters: see stmts.master)
+        for t_ in list(pool) + [query_text(q, with_default_close=True) for q in named]:
+            stmts.master(t_)
 
         def reference(key, arg):
             if key not in refmemo:
